@@ -31,7 +31,7 @@ Definition fmul x y :=
   let s := xorb (sneg x) (sneg y) in
   if is_inf x || is_inf y then (if is_zero x || is_zero y then NaN else sgn_inf s)
   else if is_zero x || is_zero y then sgn_zero s
-  else Fin (fq x * fq y).
+  else Fin (Qred (fq x * fq y)).
 
 Definition fdiv x y :=
   if is_nan x || is_nan y then NaN else
@@ -40,7 +40,7 @@ Definition fdiv x y :=
   else if is_inf y then sgn_zero s
   else if is_zero y then (if is_zero x then NaN else sgn_inf s)
   else if is_zero x then sgn_zero s
-  else Fin (fq x / fq y).
+  else Fin (Qred (fq x / fq y)).
 
 Definition fadd x y :=
   match x, y with
@@ -51,7 +51,7 @@ Definition fadd x y :=
   | NZ, NZ => NZ
   | NZ, Fin b => Fin b
   | Fin a, NZ => Fin a
-  | Fin a, Fin b => Fin (a + b)
+  | Fin a, Fin b => Fin (Qred (a + b))
   end.
 
 (** ndarray's [sum]: a left fold starting from +0.0 *)
@@ -216,7 +216,7 @@ Proof.
   - intros _. split; [assumption|]. split; [assumption|].
     destruct (sgn_zero_finite (xorb (sneg x) (sneg y))) as [_ Hz]. rewrite Hz.
     apply orb_true_iff in Ez. destruct Ez as [Ez|Ez]; apply is_zero_fq in Ez; try assumption; rewrite Ez; ring.
-  - intros _. split; [assumption|]. split; [assumption|]. simpl. reflexivity.
+  - intros _. split; [assumption|]. split; [assumption|]. cbn [fq]. apply Qred_correct.
 Qed.
 
 Lemma fdiv_finite_inv x y : is_finite (fdiv x y) = true ->
@@ -240,13 +240,13 @@ Proof.
   - intros _. split; [assumption|]. left. split; [assumption|]. split; [assumption|].
     destruct (sgn_zero_finite (xorb (sneg x) (sneg y))) as [_ Hz]. rewrite Hz.
     apply is_zero_fq in Ezx; [|assumption]. rewrite Ezx. field. assumption.
-  - intros _. split; [assumption|]. left. split; [assumption|]. split; [assumption|]. simpl. reflexivity.
+  - intros _. split; [assumption|]. left. split; [assumption|]. split; [assumption|]. cbn [fq]. apply Qred_correct.
 Qed.
 
 Lemma fadd_finite_inv x y : is_finite (fadd x y) = true ->
   is_finite x = true /\ is_finite y = true /\ fq (fadd x y) == fq x + fq y.
 Proof.
-  destruct x, y; simpl; try discriminate; intros _; repeat split; try reflexivity; ring.
+  destruct x, y; cbn [fadd fq is_finite]; try discriminate; intros _; repeat split; try reflexivity; try rewrite Qred_correct; ring.
 Qed.
 
 Lemma fadd_finite x y : is_finite x = true -> is_finite y = true -> is_finite (fadd x y) = true.
@@ -912,8 +912,8 @@ Qed.
 (** documented edge: an infinite density is turned into a state of volume +0 (validate accepts V = +0.0) *)
 Example inf_density_accepted :
   new_full 1 (mkIn (Some (Fin 300)) None (Some PInf) None (Some (Fin 1)) None None None None None None)
-  = Nvt (Fin 300) (Fin 0) [Fin (1 * 1 / 1)].
-Proof. reflexivity. Qed.
+  = Nvt (Fin 300) (Fin 0) [Fin 1].
+Proof. vm_compute. reflexivity. Qed.
 
 (** non-vacuity: an NVT state is produced, and each Newton / density-iteration request is reachable *)
 Example nonvacuous_nvt : exists T V N, new_full 2 (inst 2 (mkPat true true false false false true false false false false false)) = Nvt T V N.
@@ -929,7 +929,7 @@ Proof. vm_compute. reflexivity. Qed.
 Inductive zf := ZF (n d : Z) | ZNZ | ZPI | ZNI | ZNaN.
 Definition enc (x : fval) : zf :=
   match x with
-  | Fin q => ZF (Qfloor (q * inject_Z (2 ^ 300))) 300   (* value rounded down to a 2^-300 grid, exponent printed *)
+  | Fin q => ZF (Qnum q) (Zpos (Qden q))
   | NZ => ZNZ | PInf => ZPI | NInf => ZNI | NaN => ZNaN end.
 Inductive zout := ZErr (code a b : Z) | ZState (kind : Z) (s : list zf) (v : list zf).
 Definition enc_err (e : ekind) : zout :=
